@@ -390,6 +390,39 @@ def SD.meanAge (sd : SD) (s : Nat) : Option Q :=
   let l := (getL s sd.ages).filterMap id
   if l.isEmpty then none else some ((qsumF l).div (Q.ofNat l.length))
 
+/-- exact sum of the squares of a list of lengths -/
+def qsumSq : List Frac → Q
+  | [] => Q.zero
+  | f :: r => ((Q.ofFrac f).mul (Q.ofFrac f)).add (qsumSq r)
+
+def Q.neg (a : Q) : Q := ⟨-a.num, a.den⟩
+
+/-- sample variance as `statistics.mean_and_sample_variance` defines it, exactly: `(n·Σx² − (Σx)²) / (n·(n−1))`; `none` for fewer
+    than two values (the code reports `inf` for one value); `sd` is its square root -/
+def varOf (l : List Frac) : Option Q :=
+  if l.length < 2 then none
+  else some ((((Q.ofNat l.length).mul (qsumSq l)).add ((qsumF l).mul (qsumF l)).neg).div (Q.ofNat (l.length * (l.length - 1))))
+
+/-- `min(values)` / `max(values)` (the first of several equal values, as Python's built-ins) -/
+def minF : List Frac → Option Frac
+  | [] => none
+  | f :: r => match minF r with
+    | none => some f
+    | some m => some (if Frac.lt m f then m else f)
+
+def maxF : List Frac → Option Frac
+  | [] => none
+  | f :: r => match maxF r with
+    | none => some f
+    | some m => some (if Frac.lt f m then m else f)
+
+/-- `split_edge_length_summaries[s]['var']` (= `sd`²) and `['range']` -/
+def SD.varLen (sd : SD) (s : Nat) : Option Q := varOf (getL s sd.lens)
+def SD.varAge (sd : SD) (s : Nat) : Option Q := varOf ((getL s sd.ages).filterMap id)
+def SD.rangeLen (sd : SD) (s : Nat) : Option Frac × Option Frac := (minF (getL s sd.lens), maxF (getL s sd.lens))
+def SD.rangeAge (sd : SD) (s : Nat) : Option Frac × Option Frac :=
+  (minF ((getL s sd.ages).filterMap id), maxF ((getL s sd.ages).filterMap id))
+
 /-- number of values behind each of the two summaries of split `s` (what `range`, `median`, `sd` are computed from) -/
 def SD.summarySizes (sd : SD) (s : Nat) : Nat × Nat := ((getL s sd.lens).length, ((getL s sd.ages).filterMap id).length)
 
